@@ -70,6 +70,8 @@ pub struct WebSocketFramed<T, C, E, D> {
     encode_item: PhantomData<E>,
     decode_item: PhantomData<D>,
     buffer: Option<BytesMut>,
+    readable: bool,
+    errored: bool,
 }
 
 impl<T, C, E, D> Unpin for WebSocketFramed<T, C, E, D> {}
@@ -80,7 +82,7 @@ where
     C: Encoder<E, Error = anyhow::Error> + Decoder<Item = D, Error = anyhow::Error> + Unpin,
 {
     pub fn new(stream: WebSocketStream<T>, codec: C) -> Self {
-        Self { stream, codec, encode_item: PhantomData, decode_item: PhantomData, buffer: None }
+        Self { stream, codec, encode_item: PhantomData, decode_item: PhantomData, buffer: None, readable: false, errored: false }
     }
 }
 
@@ -94,28 +96,34 @@ where
 
     fn poll_next(mut self: Pin<&mut Self>, cx: &mut Context<'_>) -> Poll<Option<Self::Item>> {
         loop {
+            if self.errored {
+                return Poll::Ready(None);
+            }
+            // decode what is buffered until the codec needs more input
+            if self.readable {
+                let mut payload = self.buffer.take().unwrap_or_default();
+                let decoded = self.codec.decode(&mut payload);
+                if !payload.is_empty() {
+                    self.buffer = Some(payload);
+                }
+                match decoded {
+                    Ok(Some(item)) => return Poll::Ready(Some(Ok(item))),
+                    Ok(None) => self.readable = false,
+                    Err(e) => {
+                        self.errored = true;
+                        return Poll::Ready(Some(Err(e)));
+                    }
+                }
+            }
             match ready!(self.stream.poll_next_unpin(cx)) {
                 Some(Ok(msg)) => {
                     if msg.is_binary() || msg.is_text() {
-                        let mut payload = match self.buffer.take() {
-                            Some(buffer) => {
-                                let msg_payload = msg.as_payload();
-                                let mut payload = BytesMut::with_capacity(buffer.len() + msg_payload.len());
-                                payload.extend_from_slice(&buffer);
-                                payload.extend_from_slice(msg_payload);
-                                payload
-                            }
-                            None => BytesMut::from(msg.into_payload()),
-                        };
-                        let decoded = self.codec.decode(&mut payload);
-                        if !payload.is_empty() {
-                            self.buffer = Some(payload);
+                        let msg_payload = msg.as_payload();
+                        match self.buffer.as_mut() {
+                            Some(buffer) => buffer.extend_from_slice(msg_payload),
+                            None => self.buffer = Some(BytesMut::from(&msg_payload[..])),
                         }
-                        match decoded {
-                            Ok(Some(item)) => return Poll::Ready(Some(Ok(item))),
-                            Ok(None) => return Poll::Pending,
-                            Err(e) => return Poll::Ready(Some(Err(e))),
-                        }
+                        self.readable = true;
                     }
                     continue;
                 }
